@@ -112,6 +112,7 @@ func TestWorker(t *testing.T) {
 		tier = "quick"
 	}
 	seed := uint64(envInt("VERIF_SEED", 1))
+	BaseSeed = seed
 	from, to := envInt("VERIF_FROM", 0), envInt("VERIF_TO", 10)
 	budget := time.Duration(envInt("VERIF_BUDGET_S", 3600)) * time.Second
 	outPath := os.Getenv("VERIF_OUT")
